@@ -12,6 +12,7 @@ import (
 	"image/draw"
 	"os"
 	"reflect"
+	"strings"
 	"time"
 
 	"github.com/mandykoh/prism"
@@ -253,7 +254,10 @@ func c15Cells(seed int64, thorough, race bool) []c15Cell {
 					c15Cell{Helper: h, Src: sk, Sub: true, Corner: 4, W: 3, H: 3, OX: 2, OY: 2, Par: 1 + len(cells)%3, Seed: rng.U64()},
 					c15Cell{Helper: h, Src: sk, Sub: true, Corner: 5, W: 6, H: 4, OX: 0, OY: 0, Par: 2, Seed: rng.U64()},
 					c15Cell{Helper: h, Src: sk, Sub: true, W: 4, H: 4, OX: 1, OY: 1, Par: 1 + len(cells)%2, Content: 5, Seed: rng.U64()},
-					c15Cell{Helper: h, Src: sk, Sub: true, Corner: 4, W: 5, H: 3, OX: 1, OY: 0, Par: 3, Content: 5, Seed: rng.U64()})
+					c15Cell{Helper: h, Src: sk, Sub: true, Corner: 4, W: 5, H: 3, OX: 1, OY: 0, Par: 3, Content: 5, Seed: rng.U64()},
+					c15Cell{Helper: h, Src: sk, Sub: true, W: 4, H: 5, OX: 1, OY: 1, Par: 2, Content: 6, Seed: rng.U64()},
+					c15Cell{Helper: h, Src: sk, Sub: true, Corner: 5, W: 6, H: 4, OX: 0, OY: 0, Par: 1, Content: 6, Seed: rng.U64()},
+					c15Cell{Helper: h, Src: sk, W: 7, H: 3, OX: 0, OY: 0, Par: 3, Content: 6, Seed: rng.U64()})
 			}
 		}
 	}
@@ -275,6 +279,10 @@ func c15Cells(seed int64, thorough, race bool) []c15Cell {
 				if c15HandWritten(h, sk) && len(sk) > 5 && sk[:5] == "YCbCr" {
 					cells = append(cells, c15Cell{Helper: h, Src: sk, W: 140003, H: 3, OX: 0, OY: 0, Par: 3, Seed: rng.U64()})
 				}
+			}
+			for wi, w := range []int{63, 64, 65, 255, 256, 257, 511, 512, 513, 1024} {
+				sk := []string{"NRGBA", "RGBA64", "RGBA", "YCbCr444", "NRGBA64", "Gray16"}[(wi+hi)%6]
+				cells = append(cells, c15Cell{Helper: h, Src: sk, W: w, H: 3, OX: 0, OY: 1, Par: 1 + wi%3, Seed: rng.U64()})
 			}
 			for rows := 1; rows <= 48; rows++ {
 				for par := 1; par <= 70; par++ {
@@ -307,6 +315,15 @@ func runC15(r *core.Run) {
 	r.Rule = "3 helpers x 19 input kinds x 6 sizes x 4 origins x {whole image, sub-image with stride > width} x parallelism {1,2,3,7,16,rows+5}, seeded contents with extremes, each result compared per pixel with draw.Draw(Src); bounds, instance identity for the target type, input unchanged; hand-written paths repeated under the race detector; thorough adds all 2^24 YCbCr triples, all 8-bit (c,a) pairs and random geometries. non-trivial = distinct cells with non-zero origin or sub-image or a hand-written conversion path, and at least one pixel"
 	r.Assumptions = []string{"image/draw is the reference"}
 	cells := c15Cells(r.Seed, r.Thorough(), false)
+	if strings.HasPrefix(r.Variant, "plain") {
+		var sub []c15Cell
+		for i, c := range cells {
+			if c.Par > 1 && i%5 == 0 && c.W*c.H < 5000 {
+				sub = append(sub, c)
+			}
+		}
+		cells = sub
+	}
 	hw := int64(0)
 	core.ParallelFor(len(cells), 16, func(i int) {
 		c := cells[i]
@@ -323,6 +340,16 @@ func runC15(r *core.Run) {
 		if c15HandWritten(c.Helper, c.Src) {
 			hw++
 		}
+	}
+	if strings.HasPrefix(r.Variant, "plain") {
+		return
+	}
+	if r.Variant == "" {
+		vs := []string{"plain@1", "plain@2"}
+		for _, v := range vs {
+			r.RunVariantChild(v, 10*time.Minute, false)
+		}
+		r.Obs("fresh_process_environments", vs)
 	}
 	// sequences on one Paletted image: convert, change palette entries in place (palette cycling),
 	// convert again - each conversion must reflect the palette as it is at that moment
@@ -420,6 +447,9 @@ func splitLines(b []byte) []string {
 }
 
 func childC15(args []string) int {
+	if len(args) > 0 && strings.HasPrefix(args[0], "plain") {
+		return variantChild("C15", "exploration", runC15)(args)
+	}
 	thorough := len(args) > 0 && args[0] == "thorough"
 	cells := c15Cells(core.Seed(), thorough, true)
 	w := bufio.NewWriter(os.Stdout)
